@@ -1,6 +1,11 @@
 #!/bin/bash
 # seed_intake.sh <name> <worktree> <property>: confirm an agent's seed, store it, drop the worktree, run the property's check on it
 NAME=$1; WT=$2; PID=$3
+if [ ! -d "$WT/seed" ]; then   # re-verification of a stored seed: rebuild the worktree from /verif/seeded/<name>
+  git -C /repo worktree remove --force $WT 2>/dev/null; rm -rf $WT
+  git -C /repo worktree add -q --detach $WT HEAD && cp /repo/rust/Cargo.lock $WT/rust/Cargo.lock && mkdir -p $WT/seed
+  cp /verif/seeded/$NAME/patch.diff /verif/seeded/$NAME/demo.rs $WT/seed/; cp /verif/seeded/$NAME/agent_README.md $WT/seed/README.md 2>/dev/null
+fi
 /verif/runner/seed_verify.sh $NAME $WT > /tmp/si_$NAME.verify 2>&1
 tail -4 /tmp/si_$NAME.verify
 git -C /repo worktree remove --force $WT 2>/dev/null; rm -rf $WT
